@@ -33,6 +33,7 @@ pub const SUBS: &[SubDef] = &[
     SubDef { prop: "C09", name: "records", oracle: records },
     SubDef { prop: "C09", name: "extensions", oracle: extensions },
     SubDef { prop: "C09", name: "unsupported", oracle: unsupported },
+    SubDef { prop: "C09", name: "hand_built_records", oracle: hand_built_records },
     SubDef { prop: "C09", name: "writers", oracle: writers },
 ];
 
@@ -41,6 +42,7 @@ fn run(ctx: &Ctx) {
     ctx.run_tape("records", records, ctx.pick(50_000, 250_000), 1200);
     ctx.run_tape("extensions", extensions, ctx.pick(50_000, 250_000), 400);
     ctx.run_tape("unsupported", unsupported, ctx.pick(40_000, 200_000), 300);
+    ctx.run_tape("hand_built_records", hand_built_records, ctx.pick(60_000, 400_000), 300);
     ctx.run_tape("writers", writers, ctx.pick(6_000, 60_000), 700);
 }
 
@@ -261,6 +263,63 @@ fn records(t: &mut Tape, obs: &mut Obs) -> R {
             ensure!(re.as_ref().ok() == Some(&bytes), "C09:record:reserialize", "re-serializing the parsed record does not reproduce the bytes");
         }
         Err(e) => return fail("C09:record:unparsable", format!("serialized record cannot be parsed back ({}): {}", e, hex_short(&bytes))),
+    }
+    Ok(())
+}
+
+/// Records built by hand whose header does not describe their messages: any content type over any mix of ChangeCipherSpec, supported
+/// handshake messages and unsupported messages, with a stale header length that happens to equal the message count, the payload size,
+/// 0, 1, 2 or anything. The serializer writes the header's type and version, then the u16 size of the concatenated message encodings
+/// and those encodings - or NotYetImplemented as soon as one message is unsupported; the stale length and the type never matter.
+fn hand_built_records(t: &mut Tape, obs: &mut Obs) -> R {
+    let n = 1 + t.below(4);
+    let msgs: Vec<MMsg> = (0..n)
+        .map(|_| match t.weighted(&[5, 4, 1, 1]) {
+            0 => MMsg::Ccs,
+            1 => MMsg::Hs(if t.bool() { MHs::HelloRequest } else { gen_supported(t, 120) }),
+            2 => MMsg::Alert(t.u8(), t.u8()),
+            _ => MMsg::AppData(t.small_blob(8)),
+        })
+        .collect();
+    let supported = msgs.iter().all(|m| matches!(m, MMsg::Ccs | MMsg::Hs(_)));
+    let mut payload = Vec::new();
+    for m in &msgs {
+        match m {
+            MMsg::Hs(h) => payload.extend(reference_bytes(h)),
+            _ => payload.push(1),
+        }
+    }
+    let ctype = t.pick(&[0x14u8, 0x14, 0x16, 0x16, 0x15, 0x17, 0x18, 0x00]);
+    let version = gen_version(t);
+    let stale = match t.below(7) {
+        0 => msgs.len() as u16,
+        1 => payload.len() as u16,
+        2 => 0,
+        3 => 1,
+        4 => 2,
+        5 => msgs.iter().filter(|m| matches!(m, MMsg::Ccs)).count() as u16,
+        _ => t.u16(),
+    };
+    let crate_msgs: Vec<TlsMessage> = msgs.iter().map(mk::msg).collect();
+    let p = TlsPlaintext { hdr: TlsRecordHeader { record_type: TlsRecordType(ctype), version: TlsVersion(version), len: stale }, msg: crate_msgs };
+    let got = guard("TlsPlaintext::serialize", || p.serialize())?;
+    let mixed = msgs.iter().any(|m| matches!(m, MMsg::Ccs)) && msgs.iter().any(|m| !matches!(m, MMsg::Ccs));
+    if mixed || stale as usize == msgs.len() {
+        obs.nontrivial(fnv64(format!("{:?}{}{}", msgs, ctype, stale).as_bytes()));
+    }
+    let label = format!("type={:#04x}:{}:{}", ctype, if supported { "supported" } else { "with-unsupported" }, if stale as usize == msgs.len() { "len=count" } else { "len=other" });
+    obs.sample_class(&label, || json!({"header_type": ctype, "stale_len": stale, "messages": trunc(&format!("{:?}", msgs))}));
+    if supported {
+        let mut want = Enc::new();
+        want.u8(ctype);
+        want.u16(version);
+        want.vec(2, "rec.len", &payload);
+        match got {
+            Ok(b) => ensure!(b == want.buf, "C09:hand-built:bytes", "header type {:#04x}, stale length {}, messages {}: got {} expected {} (the u16 must be the size of the concatenated message encodings)", ctype, stale, trunc(&format!("{:?}", msgs)), hex_short(&b), hex_short(&want.buf)),
+            Err(e) => return fail("C09:hand-built:failed", format!("header type {:#04x}, stale length {}, supported messages {}: {:?}", ctype, stale, trunc(&format!("{:?}", msgs)), e)),
+        }
+    } else {
+        ensure!(matches!(got, Err(GenError::NotYetImplemented)), "C09:hand-built:unsupported", "header type {:#04x}, stale length {}, messages {} (one unsupported): expected NotYetImplemented, got {:?}", ctype, stale, trunc(&format!("{:?}", msgs)), got.map(|b| hex_short(&b)));
     }
     Ok(())
 }
